@@ -27,3 +27,4 @@ def rules(ctx):
     S.restore_commit_rules(ctx)
     S.create_only_when_empty_rules(ctx)
     S.flush_take_rules(ctx)
+    S.open_reads_within_length_rules(ctx)
